@@ -2207,6 +2207,13 @@ PIP_Solution_Node::row_sign(const Row& x,
       sign = NEGATIVE;
     }
   }
+  // NOTE: parameters are non-negative, they are not positive:
+  // if the inhomogeneous term is zero, a row having no positive
+  // coefficient is non-positive, it is not negative (it evaluates
+  // to zero when the parameters occurring in it are zero).
+  if (sign == NEGATIVE && x.get(0) == 0) {
+    return MIXED;
+  }
   return sign;
 }
 
@@ -2990,7 +2997,8 @@ PIP_Solution_Node::solve(const PIP_Problem& pip,
             switch (sign_i) {
             case ZERO:
               if (product > 0) {
-                sign_i = NEGATIVE;
+                // Non-positive, maybe zero: to be computed by row_sign().
+                sign_i = (j.index() == 0) ? NEGATIVE : MIXED;
               }
               else if (product < 0) {
                 sign_i = POSITIVE;
